@@ -301,10 +301,13 @@ def evaluate(ck, fl, mt):
     mc = mcalls[0]
     on_elem = is_ref_to(unwrap_ptr(mc.get("obj")), lv)
     ck.ob("C15-O2", sitestr(fl, mc), on_elem, "matches() is evaluated on the loop element", key="filter|matches-object")
-    a0 = [x for x in walk(mc["args"][0]) if is_call(x, LM + "::category") and obj_is_param(x, fl, 0)]
-    a1 = skip_copies(mc["args"][1])
-    okargs = bool(a0) and is_call(a1, LM + "::type") and obj_is_param(a1, fl, 0) and not lossy_wrappers(mc["args"][0])
-    ck.ob("C15-O3", sitestr(fl, mc), okargs, "matches(lmsg.category(), lmsg.type())" if okargs else "matches(%s)" % ", ".join(describe(a) for a in mc["args"]), key="filter|matches-args")
+    # the arguments may be hoisted into single-assignment locals in front of the loop (`const QString category(lmsg.category())`)
+    arg0 = deref_local(fl, mc["args"][0])
+    a0 = [x for x in walk(arg0) if is_call(x, LM + "::category") and obj_is_param(x, fl, 0)]
+    a1 = skip_copies(deref_local(fl, mc["args"][1]))
+    okargs = bool(a0) and is_call(a1, LM + "::type") and obj_is_param(a1, fl, 0) and not lossy_wrappers(arg0)
+    unknown_args = not okargs and not lossy_wrappers(arg0) and any(skip_copies(a_).get("k") == "ref" and skip_copies(a_).get("dk") == "local" for a_ in mc["args"][:2])
+    ck.ob("C15-O3", sitestr(fl, mc), True if okargs else (None if unknown_args else False), "matches(lmsg.category(), lmsg.type())" if okargs else "matches(%s)" % ", ".join(describe(a) for a in mc["args"]), key="filter|matches-args")
     # verdict variable
     rs = returns(fl)
     ck.require(len(rs) >= 1, "filter() has no return")
